@@ -231,7 +231,7 @@ def _optimize_core(Q, i, y_trn, Yl, Yr, lamb, w, update_sol=None):
 
     for k in range(Q.shape[1]):
         idx = np.where(i == k)[0]
-        if not idx.any():
+        if idx.size == 0:
             continue
 
         lhs = Yr[:, idx].T[:, np.newaxis, :]
